@@ -242,7 +242,7 @@ fn observe(sim: &des::net::SimBuilder<()>) -> Expect {
 
 // ---- document generator (feature bits) -------------------------------------------------
 
-const NBITS: u32 = 11;
+const NBITS: u32 = 12;
 
 fn gen(bits: u32) -> Vec<Ty> {
     let f = |k: u32| bits & (1 << k) != 0;
@@ -262,6 +262,11 @@ fn gen(bits: u32) -> Vec<Ty> {
     mid.gates.push(("dn", Some(2)));
     mid.gates.push(("up", None));
     mid.subs.push(Sub { name: "s", size: None, ty: inner_concrete.into(), ty_txt: if generic { "T".into() } else { inner_concrete.into() } });
+    if f(11) {
+        // a second (and a clustered third) field typed with the same parameter / type
+        mid.subs.push(Sub { name: "s2", size: None, ty: inner_concrete.into(), ty_txt: if generic { "T".into() } else { inner_concrete.into() } });
+        mid.subs.push(Sub { name: "sc", size: Some(2), ty: inner_concrete.into(), ty_txt: if generic { "T".into() } else { inner_concrete.into() } });
+    }
     if f(3) {
         mid.subs.push(Sub { name: "k", size: Some(2), ty: "Leaf".into(), ty_txt: "Leaf".into() });
     }
@@ -502,13 +507,13 @@ impl Property for C18 {
     }
     fn rule(&self, tier: Tier) -> String {
         format!(
-            "conformance: all 2^{NBITS} = 2048 documents of the feature-bit grammar (cluster gates, generic Mid with type argument, inherited argument type, submodule cluster, nested/cluster/indexed connections with and without link, inherited cluster element type, cluster-to-cluster and indexed connections at the top level) built with nodes_from_ndl and compared with a reference elaborator (modules with registered software, gate clusters, connections incl. link metrics and queue size); \
+            "conformance: all 2^{NBITS} = 4096 documents of the feature-bit grammar (cluster gates, generic Mid with type argument, inherited argument type, several fields typed with the same parameter, submodule cluster, nested/cluster/indexed connections with and without link, inherited cluster element type, cluster-to-cluster and indexed connections at the top level) built with nodes_from_ndl and compared with a reference elaborator (modules with registered software, gate clusters, connections incl. link metrics and queue size); \
              semantic mutations: {} single-point mutations (one per error cause of the statement) applied to {} generated documents, each must yield an error; \
              textual mutations: every scalar of {} base documents replaced by each of {} garbled/dangling tokens, outcome must be a network or an error, never a panic; \
              non-trivial = document that has at least one connection (conformance) or every mutated document (totality)",
             SEM.len(),
-            "all 2048",
-            tier.pick("4 hand-written + 64 generated".to_string(), "4 hand-written + all 2048 generated".to_string()),
+            "all 4096",
+            tier.pick("4 hand-written + 64 generated".to_string(), "4 hand-written + all 4096 generated".to_string()),
             MUTS.len()
         )
     }
@@ -542,7 +547,7 @@ impl Property for C18 {
             match conform(bits) {
                 Ok(o) => {
                     ctx.outcome(o);
-                    if bits == 0b111_1101_1111 {
+                    if bits == 0b1111_1101_1111 {
                         ctx.sample(|| json!({"kind": "conformance", "bits": bits, "document": yaml(&gen(bits), "Main")}));
                     }
                 }
@@ -583,9 +588,9 @@ impl Property for C18 {
         }
         // (b2) textual mutations of every scalar
         let mut bases: Vec<String> = BASES.iter().map(|s| (*s).to_string()).collect();
-        let ngen = ctx.tier.pick(64, 2048);
+        let ngen = ctx.tier.pick(64, 4096);
         for k in 0..ngen {
-            let bits = (k * (2048 / ngen) + if ngen < 2048 { (k % 7) * 37 } else { 0 }) as u32 & ((1 << NBITS) - 1);
+            let bits = (k * (4096 / ngen) + if ngen < 4096 { (k % 7) * 37 } else { 0 }) as u32 & ((1 << NBITS) - 1);
             bases.push(yaml(&gen(bits), "Main"));
         }
         for (bi, base) in bases.iter().enumerate() {
